@@ -9,7 +9,7 @@ use crate::genr::bytes::{ALL_TAGS, INTERESTING_U32, mutate};
 use crate::genr::val::{Gen, GenCfg, boundary_leaves};
 use crate::mon::alloc;
 use crate::out::{Ctx, hex, hex_cap, unhex};
-use crate::refmodel::decode::inflated_allowance;
+use crate::refmodel::decode::AllowanceWorker;
 use crate::refmodel::encode::{Opts, RandomChooser, ref_encode};
 use crate::rng::Rng;
 use serde_json::json;
@@ -112,6 +112,7 @@ pub fn child_main() {
         .spawn(|| {
             let stdin = std::io::stdin();
             let stdout = std::io::stdout();
+            let allowance = AllowanceWorker::start();
             let mut idx = 0usize;
             for line in stdin.lock().lines() {
                 let line = match line {
@@ -146,7 +147,7 @@ pub fn child_main() {
                     let _ = writeln!(o, "B {}", idx);
                     let _ = o.flush();
                 }
-                let infl = inflated_allowance(&data);
+                let infl = allowance.measure(&data);
                 let mut out = String::new();
                 for e in 0..ENTRIES.len() {
                     {
@@ -627,7 +628,7 @@ fn run_shard(exe: &std::path::Path, cases: &[Case], first_index: usize) -> (Vec<
 
 pub fn run(ctx: &Ctx) {
     ctx.rule("cases = (tag x count-field value x trailing bytes) grid + nesting bombs through every re-entrant tag at depths 10..4e6 + truncations at every offset / bit-flips / splices of a valid corpus + compressed sections (honest, lying, bombs, nested) + hostile dist/fragment headers + random bytes, each through all 8 decoding entry points in a child process on a 2 MiB-stack thread; evaluations = (case, entry point) executions judged; distinct = distinct (generator label, outcome vector over the 8 entry points) combinations");
-    ctx.assume("memory limit per call = 1 MiB + 256 x (input length + bytes really inflated, capped by the declared size); stack = 2 MiB (tokio's default worker stack)");
+    ctx.assume("memory limit per call = 1 MiB + 256 x (input length + bytes an independent reader really inflates from all COMPRESSED sections the input contains, nested ones included, each capped by its declared size); stack = 2 MiB (tokio's default worker stack)");
     let exe = std::env::current_exe().expect("current exe");
     let mut rng = Rng::derive(ctx.seed, 2, 1);
     let mut cases: Vec<Case> = Vec::new();
